@@ -22,7 +22,7 @@ import mpmath
 from mpmath import mp, mpf, iv
 
 IV_PREC = 160
-HP_PREC = 400
+HP_PREC = 640
 iv.prec = IV_PREC
 ULP = Fraction(1, 2 ** 53)
 RANGE_HI = Fraction(10) ** 150
@@ -711,12 +711,12 @@ def hp_value(t, env_numbers, prec=HP_PREC):
             return None
 
 
-H1 = 120
-H2 = 80
+H1 = 200
+H2 = 150
 
 
 def ref_partial(t, env_numbers, v, prec=HP_PREC):
-    """d t / d v at env by a symmetric difference quotient (h = 2**-120, 400 bits). None if undefined."""
+    """d t / d v at env by a symmetric difference quotient (h = 2**-200, 640 bits). None if undefined."""
     with mp.workprec(prec):
         env = {k: mpf(x) for k, x in env_numbers.items()}
         if v not in env:
@@ -731,7 +731,7 @@ def ref_partial(t, env_numbers, v, prec=HP_PREC):
 
 
 def ref_second(t, env_numbers, v, w, prec=HP_PREC):
-    """d^2 t / dv dw at env by second differences (h = 2**-80). None if undefined."""
+    """d^2 t / dv dw at env by second differences (h = 2**-150, 640 bits). None if undefined."""
     with mp.workprec(prec):
         env = {k: mpf(x) for k, x in env_numbers.items()}
         for name in (v, w):
@@ -847,6 +847,106 @@ def _scale(t, env, v):
     raise ValueError(tag)
 
 
+# ---------------------------------------------------------------- interval AD (conditioning of the derivative)
+
+def iv_partial(t, env, v, memo):
+    """Interval forward-mode derivative of t wrt v over the *value enclosures* of ref_eval.
+
+    Its width measures how far a correct floating-point derivative computation may be from the true
+    derivative because the sub-term values it uses carry rounding (first-order conditioning, e.g.
+    log(a) for a next to 1).  Used for tolerances and ill-conditioning filters only; the reference
+    derivative itself is the difference quotient.  Returns an iv interval or None (unbounded)."""
+    try:
+        return _ivp(t, env, v, memo)
+    except (ZeroDivisionError, ValueError, mpmath.libmp.ComplexResult, OverflowError):
+        return None
+
+
+def _enc(t, env, memo):
+    r = ref_eval(t, env, memo)
+    if r.status != "ok":
+        raise ValueError("undefined")
+    return r.enc()
+
+
+def _ivp(t, env, v, memo):
+    tag = t[0]
+    if tag == "var":
+        return iv.mpf(1) if t[1] == v else iv.mpf(0)
+    if tag == "const":
+        return iv.mpf(0)
+    if tag == "add":
+        s = iv.mpf(0)
+        for c in t[1]:
+            s = s + _ivp(c, env, v, memo)
+        return s
+    if tag == "minus":
+        return _ivp(t[1], env, v, memo) - _ivp(t[2], env, v, memo)
+    if tag == "neg":
+        return -_ivp(t[1], env, v, memo)
+    if tag == "mul":
+        vals = [_enc(c, env, memo) for c in t[1]]
+        s = iv.mpf(0)
+        for i, c in enumerate(t[1]):
+            term = _ivp(c, env, v, memo)
+            for j, w in enumerate(vals):
+                if j != i:
+                    term = term * w
+            s = s + term
+        return s
+    if tag == "div":
+        a, b = _enc(t[1], env, memo), _enc(t[2], env, memo)
+        da, db = _ivp(t[1], env, v, memo), _ivp(t[2], env, v, memo)
+        return da / b - a * db / (b * b)
+    if tag == "recip":
+        a = _enc(t[1], env, memo)
+        return -_ivp(t[1], env, v, memo) / (a * a)
+    if tag == "npow":
+        n = int(t[2])
+        d = _ivp(t[1], env, v, memo)
+        if n == 1:
+            return d
+        return n * _enc(t[1], env, memo) ** (n - 1) * d
+    if tag == "root":
+        n = int(t[2])
+        d = _ivp(t[1], env, v, memo)
+        if n == 1:
+            return d
+        r = _enc(t, env, memo)
+        return d / (n * r ** (n - 1))
+    if tag == "exp":
+        is_e, b = _base_info(t[2])
+        d = _ivp(t[1], env, v, memo)
+        if not is_e and b == 1:
+            return iv.mpf(0) * d
+        val = _enc(t, env, memo)
+        if is_e:
+            return val * d
+        return iv.log(iv_of_fraction(b)) * val * d
+    if tag == "log":
+        is_e, b = _base_info(t[2])
+        d = _ivp(t[1], env, v, memo)
+        a = _enc(t[1], env, memo)
+        if is_e:
+            return d / a
+        return d / (iv.log(iv_of_fraction(b)) * a)
+    if tag == "pow":
+        a, b = _enc(t[1], env, memo), _enc(t[2], env, memo)
+        da, db = _ivp(t[1], env, v, memo), _ivp(t[2], env, v, memo)
+        val = _enc(t, env, memo)
+        return b * iv.exp((b - 1) * iv.log(a)) * da + iv.log(a) * val * db
+    if tag == "sin":
+        return iv.cos(_enc(t[1], env, memo)) * _ivp(t[1], env, v, memo)
+    if tag == "cos":
+        return -iv.sin(_enc(t[1], env, memo)) * _ivp(t[1], env, v, memo)
+    raise ValueError(tag)
+
+
+def iv_width(I):
+    with mp.workprec(IV_PREC):
+        return hi(I) - lo(I)
+
+
 TOL_REL = mpf(2) ** -35
 TOL_ABS = mpf(2) ** -150
 
@@ -925,6 +1025,10 @@ def self_test():
         chk("d x y y / dy = 12", abs(d - 12) < mpf(2) ** -150)
         d = ref_partial(M.Root(x, 3), {"x": -8}, "x")
         chk("d cbrt(x) at -8 = 1/12", abs(d - mpf(1) / 12) < mpf(2) ** -150)
+        D = iv_partial(M.Pow(M.Exp(x, 2), x), {"x": M.EPS}, "x", {})
+        dq = ref_partial(M.Pow(M.Exp(x, 2), x), {"x": M.EPS}, "x")
+        chk("interval AD contains the difference quotient", D is not None and lo(D) <= dq <= hi(D))
+        chk("interval AD sees log-near-1 conditioning", iv_width(D) / abs(dq) > mpf(2) ** -40)
         d2 = ref_second(M.NPow(x, 3), {"x": 2}, "x", "x")
         chk("d2 x^3 = 12", abs(d2 - 12) < mpf(2) ** -100)
         d2 = ref_second(M.Mul(x, M.NPow(y, 2)), {"x": 2, "y": 3}, "x", "y")
